@@ -36,6 +36,7 @@ import (
 	"time"
 
 	"github.com/lindb/lindb/verif/internal/core"
+	"github.com/lindb/lindb/verif/internal/imgfs"
 )
 
 func main() {
@@ -119,7 +120,36 @@ func verifyChild() {
 		img := L.Images[i]
 		fmt.Printf("image %d %s\n", img.Index, img.Label) // logged before it runs
 		deep := deepEvery > 0 && i%deepEvery == 0
+		// recovery works in place: keep a pristine copy so that an unexpected verdict can be checked by a second,
+		// independent recovery of the same image
+		pristine := img.Dir + ".pristine"
+		_, _ = imgfs.CopyTree(img.Dir, pristine, nil)
 		res := v.verifyImage(img, deep)
+		if unexpected := unexpectedClasses(res); len(unexpected) > 0 && res.Note["panicked"] == "" {
+			again := img
+			again.Dir = pristine
+			res2 := v.verifyImage(again, deep)
+			second := map[string]bool{}
+			for _, viol := range res2.Violations {
+				second[viol.Class] = true
+			}
+			for i := range res.Violations {
+				cls := res.Violations[i].Class
+				if isExpectedClass(cls) {
+					continue
+				}
+				if second[cls] {
+					res.Violations[i].Message += " [a second recovery of a pristine copy of the image shows the same]"
+				} else {
+					// the two recoveries of one image disagree: not a property of the image but of the recovery run
+					res.Counters["violations."+cls+"/not-reproduced-by-a-second-recovery-of-the-same-image"] = res.Counters["violations."+cls]
+					delete(res.Counters, "violations."+cls)
+					res.Violations[i].Class = cls + "/not-reproduced-by-a-second-recovery-of-the-same-image"
+					res.Violations[i].Message += fmt.Sprintf(" [a second recovery of a pristine copy of the image does not show it; it reports %v]", classesOf(res2))
+				}
+			}
+		}
+		_ = os.RemoveAll(pristine)
 		data, _ := json.Marshal(res)
 		_, _ = out.Write(append(data, '\n'))
 		_ = out.Sync()
@@ -134,6 +164,33 @@ func verifyChild() {
 	os.Exit(0)
 }
 
+func isExpectedClass(cls string) bool {
+	for _, p := range []string{"C07/flush-protocol-window/", "C07/half-initialised-queue-meta-page/", "C07/entry-counted-twice/data-flush-started-between-writerows-and-commitsequence"} {
+		if strings.HasPrefix(cls, p) {
+			return true
+		}
+	}
+	return false
+}
+
+func unexpectedClasses(r *imgResult) []string {
+	var out []string
+	for _, v := range r.Violations {
+		if !isExpectedClass(v.Class) {
+			out = append(out, v.Class)
+		}
+	}
+	return out
+}
+
+func classesOf(r *imgResult) []string {
+	var out []string
+	for _, v := range r.Violations {
+		out = append(out, v.Class)
+	}
+	return out
+}
+
 type histJob struct {
 	idx  int
 	mode string
@@ -142,15 +199,23 @@ type histJob struct {
 func parent() {
 	c := core.New("C07", "fault_enumeration")
 	c.SetRule("one case = one crash image of the node directory (data/index/metadata kv stores, dictionary sequence file, write-ahead-log pages) " +
-		"taken after a file-system operation or a log page store of a generated history (log appends by 1-3 writers, step-wise local replication, " +
-		"metadata -> index -> data flush cycles with rows arriving between and inside the steps, idle cycles, a data flush started between the " +
-		"replicator's WriteRows and CommitSequence, log Sync/GC), recovered in a fresh process and compared with the ledger. " +
-		"Non-trivial = image strictly inside a flush step or inside a WriteLog/acknowledgement (taken after the first and before the last " +
-		"file-system event of the operation), or an image whose recovered log acknowledgement is behind the stored sequence; distinct by (history, image content hash).")
+		"taken after a file-system operation or a log page store of a generated history, recovered in a fresh process and compared with the ledger. " +
+		"Histories: (step) log appends by 1-3 writers, local replication advanced step by step, 4-6 flush cycles in the doFlush order - about half of them " +
+		"through the real dataFlushChecker.doFlush, the others step by step with rows arriving between the steps - with rows arriving at chosen " +
+		"file-system operations inside the steps (among them a new tag key / field while its schema table is being closed), a drain + an idle cycle " +
+		"followed by new names, data flushes started between (or concurrently with) the replicator's WriteRows and its CommitSequence, log Sync/GC, " +
+		"a tail of entries that stay in the log; (free) real replica loops, 3 writers, whole flush jobs and log Sync/GC all running freely, every " +
+		"4th operation imaged; (directed) two minimal reproductions. " +
+		"Non-trivial = image strictly inside a flush step or a WriteLog (after its first and before its last file-system event), or an image whose " +
+		"recovered log acknowledgement is behind the stored sequence; distinct by (history, image content hash).")
 	c.Assume("process-kill fault model: page cache and dirty shared mappings survive, user-space buffers are lost; torn 8-byte stores are not modelled")
-	c.Assume("every row has value 1 in sum fields, its own uid or its own 10s slot: a query value identifies the rows it aggregates")
-	c.Assume("recovery = node.Open on the image (tsdb.NewEngine + CreateShards), WriteAheadLogManager.Recovery, then GetOrCreatePartition + BuildReplicaForLeader for every " +
-		"(shard, family) like the next write stream does; replication is stepped only while Pending() > 0")
+	c.Assume("every row has value 1 in sum fields and its own 10s slot (per family) and every series its own uid: any value in an answer is attributable to the row that owns the slot")
+	c.Assume("recovery = node.Open on the image (tsdb.NewEngine + CreateShards), WriteAheadLogManager.Recovery (which must rebuild the local replicators), then " +
+		"GetOrCreatePartition + BuildReplicaForLeader for every (shard, family) like the next write stream does; replication is stepped only while Pending() > 0; " +
+		"queries run at quiescence after replay + flush, with `limit 100000`")
+	c.Assume("damage to rows inside the flush protocol window (ledger: a name created after the last completed metadata / index flush began, and a later index or data " +
+		"flush had started writing) and damage explained by an id of such a row being handed out again is the open finding C07/flush-protocol-window/*; " +
+		"every other row is checked strictly")
 	c.Assume("race detector reports do not decide C07; no race variant is built")
 	t0 := time.Now().UnixMilli() / hourMs * hourMs
 	nHist := c.Pick(3, 48)
@@ -161,6 +226,9 @@ func parent() {
 	}
 	for i := 0; i < nFree; i++ {
 		jobs = append(jobs, histJob{1000 + i, "free"})
+	}
+	for i := 0; i < 2; i++ { // deterministic minimal reproductions of the genuine findings
+		jobs = append(jobs, histJob{directedBase + i, "step"})
 	}
 	scratch := c.Scratch()
 	slots := runtime.NumCPU()
@@ -313,7 +381,8 @@ func parent() {
 		mu.Unlock()
 		_ = os.RemoveAll(dir)
 	})
-	if c.Counter("driven.data_flush_started_between_writerows_and_commitsequence") == 0 {
+	if c.Counter("driven.data_flush_started_between_writerows_and_commitsequence")+c.Counter("driven.data_flush_started_concurrently_with_writerows")+
+		c.Counter("driven.data_flush_waited_for_commitsequence") == 0 {
 		c.Inconclusive("no data flush was started between WriteRows and CommitSequence of a replicated entry")
 	}
 	if c.Counter("driven.arrivals_at_fs_operations_of_a_flush") == 0 {
